@@ -2,7 +2,7 @@
 # Confirm a seeded change produced by an independent sub-agent in its scratch worktree /tmp/seed/<ID>:
 #   compiles; the 492 baseline tests still pass; the demonstration fails with the change and passes without it.
 # On success the change is stored under /verif/seeded/<ID>/ (patch.diff, demo.sh, DEMO.md, meta.json).
-ID="$1"; W=/tmp/seed/$ID; T=$W/target
+ID="$1"; PROP="${ID:0:3}"; W=/tmp/seed/$ID; T=$W/target
 cd "$W" || exit 2
 export RUST_BACKTRACE=0 CARGO_NET_OFFLINE=true
 git diff -- src > /tmp/seed_$ID.patch
@@ -29,17 +29,17 @@ OK=$(python3 -c "import json;v=json.load(open('/tmp/seed_$ID.suite.verdict'));pr
 if [ "$WITH" -ne 0 ] && [ "$WITHOUT" -eq 0 ] && [ "$OK" = "1" ]; then
   D=/verif/seeded/$ID; mkdir -p $D
   cp /tmp/seed_$ID.patch $D/patch.diff; cp demo.sh DEMO.md $D/ 2>/dev/null; [ -f tests/demo_$ID.rs ] && cp tests/demo_$ID.rs $D/
-  python3 - "$ID" "$WITH" "$WITHOUT" <<'PY'
+  python3 - "$ID" "$WITH" "$WITHOUT" "$PROP" <<'PY'
 import json,sys
-ID,w,wo=sys.argv[1:4]
+ID,w,wo,PROP=sys.argv[1:5]
 v=json.load(open(f'/tmp/seed_{ID}.suite.verdict'))
-prop=[json.loads(l) for l in open('/verif/properties.jsonl') if json.loads(l)['id']==ID][0]
+prop=[json.loads(l) for l in open('/verif/properties.jsonl') if json.loads(l)['id']==PROP][0]
 demo=open(f'/tmp/seed/{ID}/DEMO.md').read()
-meta={"id":ID,"property":ID,"property_title":prop['title'],"origin":"independent sub-agent given only the property text and a scratch worktree",
+meta={"id":ID,"property":PROP,"property_title":prop['title'],"origin":"independent sub-agent given only the property text and a scratch worktree",
  "needs_to_manifest":demo[:1500],
  "confirmed":{"compiles":True,"suite_passed":v['passed'],"suite_failed_baseline_always_fail":v['failed'],"stable_tests_broken":v['stable_broken'],"demo_exit_with_change":int(w),"demo_exit_without_change":int(wo),
    "what_was_run":"tools/verify_seed.sh: cargo build; ./demo.sh (with change); cargo test --workspace --no-fail-fast --offline compared with /root/.vp/BASELINE.json stable_pass; git apply -R; cargo build; ./demo.sh (without change)"},
- "checks_to_run":[ID]}
+ "checks_to_run":[PROP]}
 json.dump(meta,open(f'/verif/seeded/{ID}/meta.json','w'),indent=1)
 PY
   echo "$ID: CONFIRMED and stored in $D"
